@@ -23,7 +23,7 @@ func zzReadBuffer(s []byte) api.IoBuffer {
 // VerifC08_BoltArbitrary: arbitrary bytes into the bolt decoder.
 func VerifC08_BoltArbitrary() {
 	verif.NoPanic()
-	n := verif.Len("n", 0, verif.Param("N", 32, 48))
+	n := verif.Len("n", 0, verif.Param("N", 32, 36))
 	s := verif.Bytes("s", n)
 	verif.AllocLimit(n + 64)
 	if n > 0 {
